@@ -81,8 +81,9 @@ func (m *MessageServerKeyExchange) Unmarshal(data []byte) error { //nolint:cyclo
 		return dtlserrors.ErrCipherSuiteUnset
 	}
 
-	hintLength := binary.BigEndian.Uint16(data)
-	if int(hintLength) <= len(data)-2 && m.KeyExchangeAlgorithm.Has(types.KeyExchangeAlgorithmPsk) {
+	// As an int: 2+hintLength wraps in 16 bits for a hint of 65534 or 65535 bytes.
+	hintLength := int(binary.BigEndian.Uint16(data))
+	if hintLength <= len(data)-2 && m.KeyExchangeAlgorithm.Has(types.KeyExchangeAlgorithmPsk) {
 		m.IdentityHint = bytes.Clone(data[2 : 2+hintLength])
 		data = data[2+hintLength:]
 	}
